@@ -833,6 +833,31 @@ func runC14(r *vf.Run) {
 				break
 			}
 		}
+		// (round 8) impatient callers: large batches whose deadline (1..40 ms, or already past) runs out while the server
+		// is still working on them, in turn with requests it rejects; then a probe. Failures of different kinds in one
+		// server lifetime (rejected, cancelled, expired) must not add up to a crash.
+		if iid := "server/" + name + "/impatient"; !srv.dead && r.Want(iid) {
+			big := &pb.QueryRequest{}
+			for i := 0; i < 4000; i++ {
+				big.Queries = append(big.Queries, &pb.Query{Expr: probes[i%len(probes)].E.ToProto(), GroupBy: probes[i%len(probes)].GB})
+			}
+			bigRaw, _ := proto.Marshal(big)
+			rejRaw, _ := proto.Marshal(&pb.QueryRequest{Queries: []*pb.Query{{Expr: oracle.Eq("no_such_column", "x").ToProto()}}})
+			for i := 0; i < 60 && sp.alive(); i++ {
+				d := time.Duration([]int{1, 3, 8, 20, 40, 0}[i%6]) * time.Millisecond
+				ctx, cancel := context.WithTimeout(context.Background(), d)
+				var resp []byte
+				_ = conn.Invoke(ctx, pb.QueryService_Query_FullMethodName, &bigRaw, &resp, grpc.ForceCodec(rawCodec{}))
+				cancel()
+				ctx, cancel = context.WithTimeout(context.Background(), 20*time.Second)
+				_ = conn.Invoke(ctx, pb.QueryService_Query_FullMethodName, &rejRaw, &resp, grpc.ForceCodec(rawCodec{}))
+				cancel()
+				r.Eval(2)
+				r.Count("requests_abandoned_by_their_deadline", 1)
+			}
+			time.Sleep(300 * time.Millisecond) // abandoned handlers find their context expired about now
+			srv.send(iid, "after-impatient-callers", probeBs[0])
+		}
 		conn.Close()
 		logf.Close()
 		if !srv.dead {
